@@ -184,4 +184,18 @@ def NetEntitled (T : Topo) (origZone oz z : Zone) : Prop :=
 structure NetWF (T : Topo) : Prop extends Detached T where
   zone_of_mem : ∀ s z e, e ∈ T.eps s z → T.zoneOf e = z
 
+/-- The property's quantifier as a hypothesis on the configuration: a zone forest with detached global zones, every
+    node sees the same members in every zone (in an order of its own), at most two endpoints per zone, connectivity
+    is symmetric (and static: `conn` does not change during a run). -/
+structure Cluster (T : Topo) : Prop extends NetWF T where
+  mem_indep : ∀ s s' z e, e ∈ T.eps s z → e ∈ T.eps s' z
+  eps_nodup : ∀ s z, (T.eps s z).Nodup
+  two : ∀ s z, (T.eps s z).length ≤ 2
+  zones_nodup : T.zones.Nodup
+  conn_symm : ∀ a b, T.conn a b = T.conn b a
+  acyclic : ∃ rank : Zone → Nat, ∀ z p, T.parent z = some p → rank p < rank z
+
+/-- the endpoint is listed, on every node, as a member of the zone it belongs to -/
+def Member (T : Topo) (e : Ep) : Prop := ∀ x, e ∈ T.eps x (T.zoneOf e)
+
 end Icinga.C11
